@@ -10,6 +10,10 @@ S: independent of the model: the returned cost against the optimum obtained by p
    of the declared finite domain (lexicographic optimum / Pareto front for the multi-objective
    routines), wrong `None`, returned model not satisfying the assertions or not having the
    reported cost, assertion stack / backtrack points changed by the call, any exception.
+   Goal *reuse* (routine "reuse", S only -- the Lean model treats a goal as an immutable value):
+   one MaxSMTGoal object is optimised, extended with further soft clauses (weights given as
+   Python int / Fraction / float / FNode) and optimised again on the same solver; every result is
+   compared with the enumerated optimum of the soft clauses the goal holds at that moment.
 """
 import itertools
 import json
@@ -40,12 +44,15 @@ LEAN_MODULES = ["PySMT.Props.C18"]
 RULE = ("constraint systems over Bool / BV<=3 / range-bounded Int (all 2-variable BV systems from a "
         "constraint palette: exhaustive) x goal kind (min, max, min-max, max-min, MaxSMT; signed/"
         "unsigned) x {linear, binary} x {SUA, incremental} x {optimize, boxed, lexicographic, pareto}; "
+        "min-max / max-min goals with 2-6 terms; MaxSMT goals also re-used and extended between calls; "
         "the oracle's choice of model is randomised/adversarial per case; a case is non-trivial when "
         "the assertions are satisfiable and the search performs at least one cut (>= 2 solve calls)")
 ASSUMPTIONS = [
     "the satisfiability oracle is complete and sound (harness/brute.py enumerates the declared finite domain)",
     "objective optimum is attained (finite domains); MaxSMT weights are integers whenever bisection is used",
     "multi-objective routines are called with at least one goal and consumed completely (pareto generator)",
+    "goal objects are immutable values in the Lean model; re-use of a MaxSMTGoal object across calls (with soft "
+    "clauses added in between) is covered by the failing-input search only",
     "goals for which Goal.get_logic() is outside {LIA, LRA, BV, QF_LIRA} raise KeyError (known finding F24b); "
     "the theorems carry the hypothesis `supported`",
 ]
@@ -84,6 +91,17 @@ OPS = {"and": "And", "or": "Or", "not": "Not", "implies": "Implies", "iff": "Iff
        "bvnot": "BVNot", "bvneg": "BVNeg", "bvudiv": "BVUDiv", "bvurem": "BVURem", "bvshl": "BVLShl",
        "bvlshr": "BVLShr", "bvashr": "BVAShr", "bv2nat": "BVToNatural", "bvconcat": "BVConcat",
        "bvcomp": "BVComp", "xor": "Xor"}
+
+
+def weight_arg(mgr, wq, real, form):
+    """the weight argument of add_soft_clause in the requested form"""
+    if form == "py" and wq.denominator == 1:
+        return int(wq)
+    if form == "fraction" and real:
+        return wq
+    if form == "float" and real and wq.denominator in (1, 2, 4, 8):
+        return float(wq)
+    return mgr.Real(wq) if real else mgr.Int(int(wq))
 
 
 def sgn(v, w):
@@ -150,10 +168,12 @@ class Prepared(object):
         if kind == "maxsmt":
             goal = MaxSMTGoal(real_weights=bool(g.get("real", False)))
             soft = []
-            for c, w in g["soft"]:
+            for ent in g["soft"]:
+                c, w = ent[0], ent[1]
+                form = ent[2] if len(ent) > 2 else "fnode"
                 cf = build(c, self.syms, mgr)
                 wq = Fraction(w)
-                goal.add_soft_clause(cf, mgr.Real(wq) if g.get("real") else mgr.Int(int(wq)))
+                goal.add_soft_clause(cf, weight_arg(mgr, wq, bool(g.get("real")), form))
                 soft.append((ev.table(cf), wq))
             tab = [sum((w for t, w in soft if t[i]), Fraction(0)) for i in range(ev.n)]
             scale = 1
@@ -550,6 +570,90 @@ def run_case(case):
     return req, py_ans, viol, info
 
 
+def run_reuse_case(case):
+    """One MaxSMTGoal object, optimised after each stage of soft clauses on the same solver.
+    S only.  Returns (None, py_ans, violations, info)."""
+    prep = Prepared(dict(case, goals=[]))
+    solver = prep.solver
+    mgr = prep.mgr
+    ev = solver.evaluator()
+    spec = case["reuse"]
+    real = bool(spec["real"])
+    strat, mixin = case["strategy"], case["mixin"]
+    viol = []
+    feasible = prep.feasible
+    feasible_set = set(feasible)
+    goal = MaxSMTGoal(real_weights=real)
+    soft = []
+    done = 0
+    results = []
+    nsolve = 0
+    rng = random.Random(case.get("seed", 0))
+    solver.chooser = (lambda rows: rows[rng.randrange(len(rows))]) if case.get("chooser") != "first" else None
+    for si, upto in enumerate(spec["stages"]):
+        forms = []
+        for ent in spec["soft"][done:upto]:
+            cf = build(ent[0], prep.syms, mgr)
+            wq = Fraction(ent[1])
+            form = ent[2] if len(ent) > 2 else "fnode"
+            goal.add_soft_clause(cf, weight_arg(mgr, wq, real, form))
+            soft.append((ev.table(cf), wq))
+            forms.append(form)
+        done = upto
+        sig = {"routine": "reuse", "mixin": mixin, "strategy": strat, "goals": "maxsmt/" + ("real" if real else "int"),
+               "stage": str(si), "added_as": "+".join(sorted(set(forms)))}
+        tab = [sum((w for t, w in soft if t[i]), Fraction(0)) for i in range(ev.n)]
+        before = solver.snapshot()
+        solver.events = []
+        solver.n_solves = 0
+        solver.max_solves = 50 + 8 * (ev.n + 2)
+        try:
+            res = solver.optimize(goal, strategy=strat)
+        except Exception as e:      # noqa
+            viol.append((dict(sig, oracle="exception", exc=type(e).__name__, objective="supported", objective_sort="-"),
+                         "optimize on a re-used MaxSMT goal (stage %d) raised %s: %s" % (si, type(e).__name__, str(e)[:160])))
+            break
+        nsolve += solver.n_solves
+        after = solver.snapshot()
+        if after != before:
+            viol.append((dict(sig, oracle="stack", outcome=("none" if res is None else "some"),
+                              delta_levels=str(len(after[1]) - len(before[1])),
+                              delta_assertions=str(len(after[0]) - len(before[0]))),
+                         "assertion stack / levels changed by optimize on a re-used goal (stage %d)" % si))
+        if res is None:
+            results.append("none")
+            if feasible:
+                viol.append((dict(sig, oracle="none"), "optimize returned None for satisfiable assertions (stage %d)" % si))
+            continue
+        m, c = res
+        row = model_row(prep, m)
+        cv = Fraction(c.constant_value())
+        results.append("m%s:%s" % (row, cv))
+        if not feasible:
+            viol.append((dict(sig, oracle="none"), "optimize returned a solution for unsatisfiable assertions"))
+            continue
+        if row is None or row not in feasible_set:
+            viol.append((dict(sig, oracle="model"), "returned model does not satisfy the assertions (stage %d)" % si))
+            continue
+        opt = max(tab[r] for r in feasible)
+        if tab[row] != opt or cv != opt:
+            viol.append((dict(sig, oracle="cost"),
+                         "re-used MaxSMT goal, stage %d (%d soft clauses, last added as %s): returned model satisfies "
+                         "soft weight %s, reported cost %s, the optimum of the current soft clauses is %s"
+                         % (si, len(soft), "+".join(forms), tab[row], cv, opt)))
+        touch = spec.get("touch", "none")
+        if touch == "term":
+            goal.term()
+        elif touch == "logic":
+            try:
+                goal.get_logic()
+            except Exception:
+                pass
+    info = {"feasible": bool(feasible), "solves": nsolve, "skip_k": True, "prep": prep}
+    py_ans = {"result": " / ".join(results), "trace": []}
+    return None, py_ans, viol, info
+
+
 def compare_answer(prep, py_ans, lean_line):
     """None when equal, else a description of the first difference"""
     parts = lean_line.split(" # ")
@@ -614,6 +718,12 @@ def bv_goals(w):
         gs.append({"kind": "minmax", "signed": signed, "terms": ["a", "b"]})
         gs.append({"kind": "maxmin", "signed": signed, "terms": ["a", ["bvnot", "b"]]})
         gs.append({"kind": "minmax", "signed": signed, "terms": ["b", ["bvneg", "a"], c(1)]})
+    # 4-6 terms, the extreme one in the first half of the list
+    top = (1 << w) - 1
+    gs.append({"kind": "minmax", "signed": False, "terms": [["bvnot", "a"], "a", "b", c(1)]})
+    gs.append({"kind": "maxmin", "signed": True, "terms": ["a", ["bvneg", "b"], ["bvnot", "a"], "b", c(top >> 1)]})
+    gs.append({"kind": "minmax", "signed": True, "terms": [["bvsub", "b", "a"], "a", "b", ["bvnot", "b"], c(0), c(top)]})
+    gs.append({"kind": "maxmin", "signed": False, "terms": [["bvadd", "a", "b"], "b", ["bvnot", "a"], c(top)]})
     return gs
 
 
@@ -643,6 +753,11 @@ INT_GOALS = [
     {"kind": "maxmin", "terms": ["x", ["minus", ["int", 1], "y"]]},
     {"kind": "minmax", "terms": ["x", ["minus", ["int", 0], "x"], "y"]},
     {"kind": "min", "terms": [["ite", "p", "x", ["plus", "y", ["int", 1]]]]},
+    # 4-6 terms, the extreme one in the first half of the list
+    {"kind": "minmax", "terms": [["minus", ["int", 4], "x"], ["int", 1], "x", ["int", 0]]},
+    {"kind": "maxmin", "terms": ["x", ["minus", "y", ["int", 3]], ["minus", ["int", 2], "x"], "y", ["int", 7]]},
+    {"kind": "minmax", "terms": ["y", ["minus", "x", "y"], "x", ["minus", ["int", 0], "y"], ["int", -2], ["int", 3]]},
+    {"kind": "maxmin", "terms": [["minus", ["int", 0], "x"], "x", ["int", 5], ["plus", "y", ["int", 9]]]},
 ]
 
 BOOL_PALETTE = [
@@ -681,10 +796,28 @@ def rand_maxsmt(rng, real=False):
         c = rng.choice(SOFT_CLAUSES)
         if real:
             w = str(Fraction(rng.randint(-2, 9), rng.choice([1, 2, 3, 4])))
+            form = rng.choice(["fnode", "fnode", "py", "fraction", "float"])
         else:
             w = rng.choice([0, 1, 1, 2, 3, 5, 7, -1, 10])
-        soft.append([c, w])
+            form = rng.choice(["fnode", "py"])
+        soft.append([c, w, form])
     return {"kind": "maxsmt", "soft": soft, "real": real}
+
+
+def rand_reuse(rng, real):
+    """a MaxSMT goal that is optimised, extended, optimised again (2-3 stages)"""
+    g = rand_maxsmt(rng, real)
+    soft = list(g["soft"])
+    stages = [len(soft)]
+    for _ in range(rng.randint(1, 2)):
+        extra = rand_maxsmt(rng, real)["soft"][:rng.randint(1, 2)]
+        for e in extra:
+            # the later clauses are heavy enough to move the optimum
+            if not real:
+                e[1] = rng.choice([2, 3, 5, 7, 10, 12])
+            soft.append(e)
+        stages.append(len(soft))
+    return {"real": real, "soft": soft, "stages": stages, "touch": rng.choice(["none", "term", "logic"])}
 
 
 CHOOSERS = ["first", "random", "random", "worst", "best"]
@@ -827,6 +960,12 @@ def _gen_sampled(ctx):
                     gs = [rng.choice(pool)]
         if routine != "single" and rng.random() < 0.01:
             gs = []            # F24c: lexicographic / pareto with no goal at all
+        if fam == "bool" and rng.random() < 0.35:
+            # goal reuse: optimise, add soft clauses to the same goal object, optimise again
+            case = mk(vars_, asserts, [], "reuse", strat, mixin)
+            case["reuse"] = rand_reuse(rng, (strat == "linear") and rng.random() < 0.3)
+            yield "reuse", case
+            continue
         yield fam, mk(vars_, asserts, gs, routine, strat, mixin)
 
 
@@ -1001,7 +1140,10 @@ def run(ctx):
 
 def _one(ctx, fam, case, batch, spec_batch):
     try:
-        req, py_ans, viol, info = run_case(case)
+        if case["routine"] == "reuse":
+            req, py_ans, viol, info = run_reuse_case(case)
+        else:
+            req, py_ans, viol, info = run_case(case)
     except Exception as e:      # harness problem, not an implementation outcome
         ctx.infra("case crashed in the harness: %r on %s" % (e, json.dumps(case)))
         return
@@ -1064,7 +1206,7 @@ def replay(ctx, rep):
         batch, spec_batch = [], []
         _one(ctx, "replay", case, batch, spec_batch)
         _flush(ctx, batch, [True])
-        req, py_ans, viol, info = run_case(case)
+        req, py_ans, viol, info = (run_reuse_case if case["routine"] == "reuse" else run_case)(case)
         print("replayed case: %s" % json.dumps(case))
         print("implementation: result=%s events=%s" % (py_ans["result"], " ".join(py_ans["trace"])))
         for sig, what in viol:
